@@ -224,6 +224,12 @@ func (p *port) run() {
 				if c.op == "recv" {
 					break
 				}
+				if len(p.got) > drainBudget {
+					// a stream that does not end (a source that should have stopped): stop receiving so that the stage blocks,
+					// the bubble becomes quiescent and the monitors can speak
+					p.w.log(p.name, "drain-budget", 0)
+					break
+				}
 				if p.w.cancelFlag.Load() && p.w.limitDrain.Load() {
 					// a consumer that keeps draining after cancel takes at most postCancelBudget more values:
 					// a stage that never stops would otherwise keep the bubble busy forever (no quiescence)
@@ -268,6 +274,9 @@ func toInt(v any) int {
 }
 
 const postCancelBudget = 200
+
+// drainBudget: no case of the engine delivers this many values on one port
+const drainBudget = 400000
 
 // snapshot of a port at a quiescent point
 type snap struct {
@@ -412,6 +421,11 @@ func (w *world) log(port, what string, v int) {
 
 // called records a user-function call (argument id) — called from library goroutines.
 func (w *world) called(arg int) {
+	if w.isStopped() {
+		// the case is over (torn down) and a library goroutine still calls the user function: it can only be one that
+		// never stops. Park it, so that the bubble ends (as a deadlock report) instead of spinning on the virtual clock.
+		select {}
+	}
 	t := w.now()
 	w.emu.Lock()
 	w.calls = append(w.calls, arg)
